@@ -170,6 +170,11 @@ func genCase(t *rapid.T) ax.Case {
 	}
 	c.R = genSeq(t, "r", pool, 1, maxLen, "")
 	c.Q = genSeq(t, "q", pool, 1, maxLen, c.R)
+	if rapid.IntRange(0, 79).Draw(t, "large-table") == 41 {
+		// a DP table of more than 65536 cells (pooled or chunked tables behave differently there)
+		c.R = genSeq(t, "r-large", pool, 257, 420, "")
+		c.Q = genSeq(t, "q-large", pool, 257, 420, c.R)
+	}
 	c.Mat = genMat(t, rapid.IntRange(0, 2).Draw(t, "tie-bias") == 0)
 	if c.Affine() {
 		c.GapOpen = rapid.IntRange(-6, 0).Draw(t, "open")
@@ -187,6 +192,9 @@ func classes(c ax.Case) []string {
 		l = append(l, "qletters")
 	}
 	l = append(l, c.UsageClasses()...)
+	if (len(c.R)+1)*(len(c.Q)+1) >= 65536 {
+		l = append(l, "table>=65536-cells")
+	}
 	return l
 }
 
